@@ -59,6 +59,10 @@ func Run(p *load.Program, tier string) *oblig.Set {
 	r.v10()
 	r.v11()
 	r.ctxIDs()
+	r.dumpRule()
+	r.arrRule()
+	r.loopExit()
+	r.captures()
 	r.dflt()
 	r.effects()
 	return s
@@ -994,4 +998,126 @@ func (r *ruler) effects() {
 	}
 	sort.Strings(lines)
 	r.s.Note("effect table: %s", strings.Join(lines, " "))
+}
+
+// arrRule (O1): ARR builds a new array, it never appends into the payload of its operand.
+func (r *ruler) arrRule() {
+	for _, pa := range r.normal("ARR") {
+		key := r.key("ARR", "appends to a private copy")
+		ta := events(pa, "call", ".ToArray")
+		cl := events(pa, "call", "slices.Clone")
+		ap := events(pa, "call", "append")
+		na := events(pa, "call", "value.NewArray")
+		ps := events(pa, "call", ".Push")
+		ok := len(ta) == 1 && ta[0].Args[0] == "V1" && len(cl) == 1 && len(ap) == 1 && len(na) == 1 && len(ps) == 1
+		if ok {
+			payload := strings.TrimPrefix(strings.Split(ta[0].Res, ", ")[0], "(")
+			ok = cl[0].Args[0] == payload && ap[0].Args[0] == cl[0].Res && ap[0].Args[1] == "V0" && len(ap[0].Args) == 2 && na[0].Args[0] == ap[0].Res && ps[0].Args[1] == na[0].Res
+		}
+		if ok {
+			r.s.OK("O1", key, r.ppos(pa), "NewArray(append(slices.Clone(payload of src1), src0)) pushed")
+		} else {
+			r.s.Bad("O1", key, r.ppos(pa), "ARR must append the element to a copy of the array operand's payload (slices.Clone) and push a new array: appending in place writes into a value that already exists (a constant of the data segment or an earlier result)", pa.Describe()...)
+		}
+		break
+	}
+	// no handler stores into the data segment or appends to a payload in place
+	for _, op := range r.ops() {
+		for _, pa := range r.m.Paths[op] {
+			for _, e := range pa.Events {
+				if e.Kind == "store" && (strings.Contains(e.Args[0], "CR.DS") || strings.Contains(e.Args[0], "ToArray")) {
+					r.s.Bad("O1", r.key(op, "writes into an existing value"), r.m.P.Pos(e.Pos), "an instruction handler stores into the data segment or into an array payload: "+e.String(), pa.Describe()...)
+				}
+			}
+		}
+	}
+}
+
+// loopExit: when the code is exhausted the current ip is saved and, if asked, the result popped.
+func (r *ruler) loopExit() {
+	m := r.m
+	done := m.Header.Succs[1]
+	key := "vm.Run / end of code"
+	var saved, popped bool
+	seen := map[*ssaBlock]bool{}
+	var walk func(b *ssaBlock)
+	walk = func(b *ssaBlock) {
+		if seen[b] {
+			return
+		}
+		seen[b] = true
+		for _, ins := range b.Instrs {
+			s := ins.String()
+			if strings.Contains(s, "= t") || true {
+				_ = s
+			}
+			if st, ok := ins.(*ssaStore); ok {
+				if fa, ok := st.Addr.(*ssaFieldAddr); ok && fa.X == ssaValue(m.VarOf["ctxp"]) && st.Val == ssaValue(m.VarOf["ip"]) {
+					saved = true
+				}
+			}
+			if c, ok := ins.(*ssaCall); ok {
+				if cal := c.Call.StaticCallee(); cal != nil && cal.Name() == "Pop" && len(c.Call.Args) == 1 && c.Call.Args[0] == ssaValue(m.VarOf["m"]) {
+					popped = true
+				}
+			}
+		}
+		for _, s := range b.Succs {
+			walk(s)
+		}
+	}
+	walk(done)
+	if saved && popped {
+		r.s.OK("V7", key, r.pos, "ctxp.ip = ip saved; the result is popped from the current memory when requested")
+	} else {
+		r.s.Bad("V7", key, r.pos, fmt.Sprintf("when the code is exhausted Run must save ip in the current context (%v) and pop the result from the current memory (%v)", saved, popped))
+	}
+}
+
+// captures (O3, V13b): where live slices of the reallocating value stack are
+// captured into values, and whether a returned array has its closures detached.
+func (r *ruler) captures() {
+	for _, op := range r.ops() {
+		for _, pa := range r.normal(op) {
+			tops := events(pa, "call", "memory.Type).Top")
+			if len(tops) == 0 {
+				continue
+			}
+			stored := false
+			for _, e := range pa.Events {
+				if e.Kind != "call" || len(e.Vals) < 2 {
+					continue
+				}
+				for _, v := range e.Vals[1:] {
+					if p, ok := v.(*absint.Ptr); ok && strings.Contains(absint.Key(p.Cell.V), "Top#") {
+						stored = true
+					}
+					if strings.Contains(absint.Key(v), "Top#") && !strings.HasSuffix(e.Fn, ".Top") {
+						stored = true
+					}
+				}
+			}
+			if stored {
+				r.s.Bad("O3", r.key(op, "captures a live slice of the value stack"), r.ppos(pa), "the frame returned by memory.Top is a sub-slice of the value stack, which growStack reallocates by append; storing it in a value keeps an alias that goes stale (or stays shared) when the stack grows", pa.Describe()...)
+			}
+			break
+		}
+	}
+	// RET: function values nested in a returned array keep pointing into the dying frame
+	for _, pa := range r.normal("RET") {
+		if pa.Conds[0] != "ctxp.parent == nil" {
+			continue
+		}
+		cs := condsWith(pa, "ToFunction.1")
+		if len(cs) != 1 || !strings.HasSuffix(cs[0], ":= false") {
+			continue
+		}
+		key := r.key("RET", "detaches closures nested in a returned array")
+		if len(events(pa, "call", ".ToArray")) > 0 {
+			r.s.OK("V13b", key, r.ppos(pa), "a returned non-function value is inspected for nested function values")
+		} else {
+			r.s.Bad("V13b", key, r.ppos(pa), "a returned value that is not itself a function is pushed as it is: a function value inside a returned array still captures the frame that is being popped", pa.Describe()...)
+		}
+		break
+	}
 }
